@@ -303,13 +303,13 @@ theorem pass2_step (g : MGraph) (x : Nat) (us os : List Nat) (hx : x < g.length)
     by_cases h : x = t ∧ t < g.length
     · simp [h, List.mem_append]
     · have : ¬ x = t := fun e => h ⟨e, e ▸ hx⟩
-      simp [h, this]
+      simp [this]
   · intro t j
     simp only [g1, ownsAt, getD_modify]
     by_cases h : x = t ∧ t < g.length
     · simp [h, List.mem_append]
     · have : ¬ x = t := fun e => h ⟨e, e ▸ hx⟩
-      simp [h, this]
+      simp [this]
 
 /-- Second pass: identities and the number of nodes stay; node `t` gains exactly the
 remapped edges of the input nodes that are remapped to `t`. -/
